@@ -42,6 +42,8 @@ def run(F, rep, tier):
     loop_flag(F, rep)
     start_rules(F, rep)
     c03.binder_typed(F, rep)
+    # shape checks on a value typed through an annotation need the named declaration to be known at that point
+    c03.declared_types_known(F, rep)
 
 
 def blob_arm(F, rep):
